@@ -177,6 +177,20 @@ def observe(cmd, args):
             want = "T" if pyop(l, r) else "F"
             if got != want: return "%r %s %r: right operand is not a version, the string operator gives %s, evaluate() gives %s" % (l, op, r, want, got)
         return "ok"
+    if cmd == "law.k.extra":
+        # a name compared with extra is PEP 503 / 685 normalised on both sides: lower-cased (str.lower, non-ASCII letters too) with runs of
+        # '-', '_', '.' collapsed.  The expected answer comes from the harness's own folding (args[2]), not from canonicalize_name.
+        a, b, want_eq = args[0], args[1], args[2] == "T"
+        for txt, want in (('extra == "%s"' % a, want_eq), ('extra != "%s"' % a, not want_eq), ('"%s" == extra' % a, want_eq),
+                          ('os_name == "zz" or (extra == "%s")' % a, want_eq)):
+            m = mk(txt)
+            if m is None: return "ok"
+            got = ev(m, {"extra": b, "os_name": "posix"})
+            if got != ("T" if want else "F"): return "%s under extra=%r gives %s, the normalised names are %s" % (txt, b, got, "equal" if want_eq else "different")
+            try: r = Requirement("pkg; " + txt)
+            except InvalidRequirement: return "Requirement rejects %r" % txt
+            if ev(r.marker, {"extra": b, "os_name": "posix"}) != ("T" if want else "F"): return "Requirement(...).marker: %s under extra=%r is not %s" % (txt, b, want)
+        return "ok"
     if cmd == "law.k.reqeval":
         m = mk(args[0])
         try: r = Requirement(args[1] + ";" + args[0])
